@@ -29,6 +29,8 @@ pub enum Act {
     Leveled { l0: u8, target: u64, use_wm: bool },
     Major { target: u64, use_wm: bool },
     DropRange { lo: Bytes, hi: Bytes },
+    /// clearer (C15 under schedules): `clear()` while others write, rotate, flush and read
+    Clear,
     /// actor-level pause (pure scheduling point)
     Pause,
     /// auditor: structural audit of whatever version is published right now
@@ -68,6 +70,8 @@ enum Ev {
     AuditFail { tid: u32, version: u64, what: String, ev: u64 },
     AuditOk { shape: u64 },
     SeqnoCheck { tid: u32, ev_start: u64, got: Option<u64>, hi: u64, ev: u64 },
+    ClearBegin { tid: u32, ev: u64 },
+    ClearEnd { tid: u32, ev: u64 },
 }
 
 struct SharedState {
@@ -157,8 +161,22 @@ pub fn gen_conc(prop: &PropDef, seed: u64, tier: &str) -> RunSpec {
         }
         threads.push(("flusher".into(), a));
     }
+    // C15 under schedules: clear() against writer, readers, flusher and compactions in progress
+    // (LSMSIM_CLEAR_WITHOUT_COMPACTION=1 restricts the variant to the flush race)
+    let c15 = prop.id == "C15";
+    let with_compactors = !c15 || std::env::var("LSMSIM_CLEAR_WITHOUT_COMPACTION").is_err();
+    if c15 {
+        let mut a = Vec::new();
+        for _ in 0..(1 + r.usize(3)) * scale {
+            for _ in 0..2 + r.usize(12) {
+                a.push(Act::Pause);
+            }
+            a.push(Act::Clear);
+        }
+        threads.push(("clearer".into(), a));
+    }
     // compactors
-    for _ in 0..1 + r.usize(3) {
+    for _ in 0..if with_compactors { 1 + r.usize(3) } else { 0 } {
         let mut a = Vec::new();
         for _ in 0..(4 + r.usize(10)) * scale {
             a.push(Act::Leveled {
@@ -173,7 +191,7 @@ pub fn gen_conc(prop: &PropDef, seed: u64, tier: &str) -> RunSpec {
         threads.push(("compactor".into(), a));
     }
     // optional exclusive maintenance thread
-    if r.chance(1, 2) {
+    if r.chance(1, 2) && with_compactors {
         let mut a = Vec::new();
         for _ in 0..1 + r.usize(3) {
             if r.chance(2, 3) {
@@ -516,6 +534,15 @@ fn thread_body(
                 }
                 shared.push(Ev::MaintEnd { tid, ev: shared.next_ev() });
             }
+            Act::Clear => {
+                shared.push(Ev::MaintBegin { tid, what: "clear", ev: shared.next_ev() });
+                shared.push(Ev::ClearBegin { tid, ev: shared.next_ev() });
+                if let Err(e) = tree.clear() {
+                    shared.push(Ev::Error { tid, what: format!("clear returned Err({e:?})"), ev: shared.next_ev() });
+                }
+                shared.push(Ev::ClearEnd { tid, ev: shared.next_ev() });
+                shared.push(Ev::MaintEnd { tid, ev: shared.next_ev() });
+            }
             Act::DropRange { lo, hi } => {
                 shared.push(Ev::MaintBegin { tid, what: "drop_range", ev: shared.next_ev() });
                 if let Err(e) = tree.drop_range::<Vec<u8>, _>(lo.0.clone()..=hi.0.clone()) {
@@ -528,8 +555,15 @@ fn thread_body(
 }
 
 /// All values a read of `key` at snapshot `s` opened at event `e_s` may legitimately return.
+///
+/// `clears` are the `clear()` calls of the run as (begin event, end event). A clear is stamped
+/// with a seqno drawn inside the call and publishes `visible_seqno` past it before it returns,
+/// so a snapshot read after the call returned sees it, one read before the call began does not,
+/// and one read in between may or may not. A write that had returned before the call began is
+/// erased by it, one that began after it returned is not, and one in flight may go either way.
 fn acceptable(
     writes: &[(u64, Vec<WriteItem>, u64, Option<u64>)],
+    clears: &[(u64, Option<u64>)],
     key: &[u8],
     s: u64,
     e_s: u64,
@@ -538,8 +572,31 @@ fn acceptable(
     // was read; optional: versions with seqno < s still in flight at that moment
     let mut definite: Option<(u64, Option<Vec<u8>>)> = None;
     let mut optional: Vec<(u64, Option<Vec<u8>>)> = Vec::new();
-    for (ws, items, _b, end) in writes {
+    for (ws, items, begin, end) in writes {
         if *ws >= s {
+            continue;
+        }
+        // (surely erased, possibly erased) by a clear this snapshot sees / may see
+        let mut surely_erased = false;
+        let mut maybe_erased = false;
+        for (cb, ce) in clears {
+            let applied = ce.is_some_and(|ce| ce < e_s);
+            let not_applied = *cb > e_s;
+            if not_applied {
+                continue;
+            }
+            let before = end.is_some_and(|e| e < *cb);
+            let after = ce.is_some_and(|ce| *begin > ce);
+            if after {
+                continue;
+            }
+            if applied && before {
+                surely_erased = true;
+            } else {
+                maybe_erased = true;
+            }
+        }
+        if surely_erased {
             continue;
         }
         for w in items {
@@ -551,7 +608,7 @@ fn acceptable(
                 _ => None,
             };
             let done = end.is_some_and(|e| e < e_s);
-            if done {
+            if done && !maybe_erased {
                 if definite.as_ref().map_or(true, |d| d.0 < *ws) {
                     definite = Some((*ws, val));
                 }
@@ -718,8 +775,15 @@ pub fn run_conc(prop: &PropDef, spec: &RunSpec, workdir: &Path, index: u64) -> R
     let mut snap_ev: BTreeMap<(u32, u64), u64> = BTreeMap::new();
     let mut maint: Vec<(u64, Option<u64>, u32)> = Vec::new();
     let mut ingests = 0u64;
+    let mut clears: Vec<(u64, Option<u64>)> = Vec::new();
     for e in &log {
         match e {
+            Ev::ClearBegin { ev, .. } => clears.push((*ev, None)),
+            Ev::ClearEnd { ev, .. } => {
+                if let Some(c) = clears.last_mut() {
+                    c.1 = Some(*ev);
+                }
+            }
             Ev::WriteBegin { s, items, ev } => writes.push((*s, items.clone(), *ev, None)),
             Ev::WriteEnd { s, ev } => {
                 if let Some(w) = writes.iter_mut().find(|w| w.0 == *s) {
@@ -829,7 +893,7 @@ pub fn run_conc(prop: &PropDef, spec: &RunSpec, workdir: &Path, index: u64) -> R
                 }
                 Ev::Read { tid, s, e_s, key, got, ev } => {
                     let e_s = *e_s;
-                    let acc = acceptable(&writes, key, *s, e_s);
+                    let acc = acceptable(&writes, &clears, key, *s, e_s);
                     reads_checked += 1;
                     if acc.len() > 1 {
                         reads_with_inflight += 1;
@@ -875,7 +939,7 @@ pub fn run_conc(prop: &PropDef, spec: &RunSpec, workdir: &Path, index: u64) -> R
                         if k.starts_with(b"~drop-") {
                             continue;
                         }
-                        let acc = acceptable(&writes, k, *s, e_s);
+                        let acc = acceptable(&writes, &clears, k, *s, e_s);
                         let g = got_map.get(k).map(|v| (*v).clone());
                         if !acc.contains(&g) {
                             bad = Some(format!(
@@ -906,7 +970,7 @@ pub fn run_conc(prop: &PropDef, spec: &RunSpec, workdir: &Path, index: u64) -> R
                 Ev::Read { tid, s, e_s, key, got, ev } => {
                     // a snapshot that covers a write which had not returned when the snapshot
                     // was read is not one "the writer has already published" for that key
-                    if acceptable(&writes, key, *s, *e_s).len() > 1 {
+                    if acceptable(&writes, &clears, key, *s, *e_s).len() > 1 {
                         continue;
                     }
                     match seen.get(&(*tid, *e_s, key.clone())) {
@@ -936,7 +1000,10 @@ pub fn run_conc(prop: &PropDef, spec: &RunSpec, workdir: &Path, index: u64) -> R
                         rereads += 1;
                         let inflight = writes
                             .iter()
-                            .any(|w| w.0 < *s && !w.3.is_some_and(|e| e < *e_s));
+                            .any(|w| w.0 < *s && !w.3.is_some_and(|e| e < *e_s))
+                            || clears
+                                .iter()
+                                .any(|c| c.0 < *e_s && !c.1.is_some_and(|ce| ce < *e_s));
                         if first != got && !inflight {
                             outcome = fail(
                                 "snapshot",
@@ -963,6 +1030,8 @@ pub fn run_conc(prop: &PropDef, spec: &RunSpec, workdir: &Path, index: u64) -> R
     stats.add("probe_reads_with_inflight_write", reads_with_inflight);
 
     // ---- quiescence: every acknowledged write present, structure sound, flush + reopen ----
+    let quiescent_view: std::cell::RefCell<Option<BTreeMap<Vec<u8>, Vec<u8>>>> =
+        std::cell::RefCell::new(None);
     if outcome.is_ok() {
         outcome = (|| -> Result<(), Violation> {
             let mut want: BTreeMap<Vec<u8>, (Vec<u8>, u64)> = BTreeMap::new();
@@ -1003,7 +1072,30 @@ pub fn run_conc(prop: &PropDef, spec: &RunSpec, workdir: &Path, index: u64) -> R
                 msg: format!("scan at quiescence failed: {e}"),
                 at_op: 0,
             })?;
-            if got != want {
+            if !clears.is_empty() {
+                // with clear() in the run some writes may legitimately have gone either way
+                let mut all_keys: BTreeSet<Vec<u8>> = spec.keys.iter().map(|k| k.0.clone()).collect();
+                all_keys.extend(got.keys().cloned());
+                for k in &all_keys {
+                    let acc = acceptable(&writes, &clears, k, u64::MAX, u64::MAX);
+                    let g = got.get(k).map(|x| x.0.clone());
+                    if !acc.contains(&g) {
+                        return fail(
+                            "conc",
+                            if g.is_some() { "conc/quiescent-content/resurrected" } else { "conc/quiescent-content/lost" },
+                            format!(
+                                "after all threads finished get({}) = {} but with the clear() calls at events {:?} the acceptable answers are {:?}",
+                                Bytes(k.clone()).short(),
+                                crate::engine::fmt_opt(&g),
+                                clears,
+                                acc.iter().map(crate::engine::fmt_opt).collect::<Vec<_>>()
+                            ),
+                        );
+                    }
+                }
+                *quiescent_view.borrow_mut() =
+                    Some(got.iter().map(|(k, v)| (k.clone(), v.0.clone())).collect());
+            } else if got != want {
                 return fail(
                     "conc",
                     "conc/quiescent-content",
@@ -1096,6 +1188,10 @@ pub fn run_conc(prop: &PropDef, spec: &RunSpec, workdir: &Path, index: u64) -> R
                 if let Some(v) = v {
                     want.insert(k, v);
                 }
+            }
+            if let Some(q) = quiescent_view.borrow_mut().take() {
+                // runs with clear(): the reopened tree must hold what it held at quiescence
+                want = q;
             }
             let mut got: BTreeMap<Vec<u8>, Vec<u8>> = BTreeMap::new();
             for g in t2.iter(u64::MAX, None) {
